@@ -3,6 +3,7 @@
 use crate::framework::Family;
 
 pub mod client_blocking;
+pub mod fleet_blocking;
 pub mod peers;
 pub mod registry_tree;
 pub mod stream_ctl;
@@ -14,6 +15,7 @@ pub fn all() -> &'static [Family] {
         v.extend(stream_ctl::families());
         v.extend(peers::families());
         v.extend(client_blocking::families());
+        v.extend(fleet_blocking::families());
         v.extend(registry_tree::families());
         v
     })
